@@ -210,7 +210,8 @@ pub fn check_tree(ctx: &mut Ctx, doc: &[u8], framings: &[Framing]) {
         w.extend_from_slice(doc);
         w.extend_from_slice(b",");
         w.extend_from_slice(doc);
-        w.extend_from_slice(b"]");
+        // (two more elements of other kinds: values of one Vec must not share a slot)
+        w.extend_from_slice(b" ,12.50,\"\"]");
         gen::frame(&w.clone(), *f, &mut text);
         let root = refjson::parse_doc(&text, RMode::Decode).unwrap();
         let Kind::Arr(items) = &root.kind else { unreachable!() };
@@ -220,11 +221,13 @@ pub fn check_tree(ctx: &mut Ctx, doc: &[u8], framings: &[Framing]) {
             &text,
             guard(|| {
                 let x: Vec<Value> = scribbled(&text, |b| sonic_rs::from_slice(b).map_err(|e| format!("rejected: {e}")))?;
-                if x.len() != 2 {
+                if x.len() != 4 {
                     return Err(format!("{} elements", x.len()));
                 }
-                walk::cmp_value(&x[0], &items[0], &text, rn)?;
-                walk::cmp_value(&x[1], &items[1], &text, rn)
+                for k in 0..4 {
+                    walk::cmp_value(&x[k], &items[k], &text, rn).map_err(|m| format!("element {k}: {m}"))?;
+                }
+                Ok(())
             }),
         );
         ok_or(
@@ -236,11 +239,13 @@ pub fn check_tree(ctx: &mut Ctx, doc: &[u8], framings: &[Framing]) {
                     let mut de = Deserializer::from_slice(b).use_rawnumber();
                     de.deserialize().map_err(|e| format!("rejected: {e}"))
                 })?;
-                if x.len() != 2 {
+                if x.len() != 4 {
                     return Err(format!("{} elements", x.len()));
                 }
-                walk::cmp_value(&x[0], &items[0], &text, true)?;
-                walk::cmp_value(&x[1], &items[1], &text, true)
+                for k in 0..4 {
+                    walk::cmp_value(&x[k], &items[k], &text, true).map_err(|m| format!("element {k}: {m}"))?;
+                }
+                Ok(())
             }),
         );
         // (e) second and third document of a stream (whitespace separated)
@@ -249,6 +254,7 @@ pub fn check_tree(ctx: &mut Ctx, doc: &[u8], framings: &[Framing]) {
         w.extend_from_slice(doc);
         w.extend_from_slice(b"\n");
         w.extend_from_slice(doc);
+        w.extend_from_slice(b" 12.50");
         gen::frame(&w.clone(), *f, &mut text);
         let n1 = refjson::parse_value_at(&text, 0, RMode::Decode).unwrap();
         let n2 = refjson::parse_value_at(&text, n1.end, RMode::Decode).unwrap();
@@ -263,6 +269,11 @@ pub fn check_tree(ctx: &mut Ctx, doc: &[u8], framings: &[Framing]) {
                     let _ = st.next();
                     let a = st.next().ok_or("stream ended early")?.map_err(|e| format!("2nd rejected: {e}"))?;
                     let b = st.next().ok_or("stream ended early")?.map_err(|e| format!("3rd rejected: {e}"))?;
+                    // a later document of the same stream is parsed while the earlier values live
+                    let c = st.next().ok_or("stream ended early")?.map_err(|e| format!("4th rejected: {e}"))?;
+                    if c.as_f64() != Some(12.5) {
+                        return Err(format!("4th document reads {c}"));
+                    }
                     Ok((a, b))
                 })?;
                 walk::cmp_value(&a, &n2, &text, rn)?;
@@ -283,6 +294,11 @@ pub fn check_tree(ctx: &mut Ctx, doc: &[u8], framings: &[Framing]) {
                     let _ = st.next();
                     let a = st.next().ok_or("stream ended early")?.map_err(|e| format!("2nd rejected: {e}"))?;
                     let b = st.next().ok_or("stream ended early")?.map_err(|e| format!("3rd rejected: {e}"))?;
+                    // a later document of the same stream is parsed while the earlier values live
+                    let c = st.next().ok_or("stream ended early")?.map_err(|e| format!("4th rejected: {e}"))?;
+                    if c.as_f64() != Some(12.5) {
+                        return Err(format!("4th document reads {c}"));
+                    }
                     Ok((a, b))
                 })?;
                 walk::cmp_value(&a, &n2, &text, true)?;
